@@ -29,6 +29,9 @@ type FSM struct {
 	Rows         []Row
 	Action       map[string]*ssa.Function
 	ActionLit    map[string]*ast.FuncLit
+	// ActionBind: for an action made by a factory called with constants, the
+	// values of the factory's parameters (free variables of the closure)
+	ActionBind map[string]map[string]string
 	EntryFuncs   map[string]string // status → function name
 	Cleanup      []string
 	Finality     []string
@@ -46,7 +49,7 @@ type FSM struct {
 // resolved by the type checker. Anything that is not literal is reported in
 // Problems (the caller turns these into undecided obligations).
 func (p *Prog) ExtractFSM() *FSM {
-	f := &FSM{Action: map[string]*ssa.Function{}, ActionLit: map[string]*ast.FuncLit{}, EntryFuncs: map[string]string{},
+	f := &FSM{ActionBind: map[string]map[string]string{}, Action: map[string]*ssa.Function{}, ActionLit: map[string]*ast.FuncLit{}, EntryFuncs: map[string]string{},
 		StatusLists: map[string][]string{}, statusByVal: map[int64]string{}, eventByVal: map[int64]string{}}
 	root := p.ByRel[""]
 	ch := p.ByRel["channels"]
@@ -234,6 +237,44 @@ func (p *Prog) ExtractFSM() *FSM {
 		}
 	}
 	seenRow := map[string]bool{}
+	// listOf resolves a package-level variable holding a list of statuses: a
+	// composite literal of status constants, or X.AsFSMStates() of a status list
+	// of the root package (depth one, no problems recorded)
+	var listOf func(e ast.Expr) ([]string, bool)
+	listOf = func(e ast.Expr) ([]string, bool) {
+		switch x := e.(type) {
+		case *ast.Ident:
+			vs := vars[x.Name]
+			if vs == nil {
+				return nil, false
+			}
+			for i, n := range vs.Names {
+				if n.Name == x.Name && i < len(vs.Values) {
+					return listOf(vs.Values[i])
+				}
+			}
+			return nil, false
+		case *ast.CompositeLit:
+			var out []string
+			for _, el := range x.Elts {
+				n, ok := constOf(ch.TypesInfo, el, "status")
+				if !ok {
+					return nil, false
+				}
+				out = append(out, n)
+			}
+			return out, true
+		case *ast.CallExpr:
+			if s2, ok := x.Fun.(*ast.SelectorExpr); ok && s2.Sel.Name == "AsFSMStates" {
+				if s3, ok := s2.X.(*ast.SelectorExpr); ok {
+					if l, ok := f.StatusLists[s3.Sel.Name]; ok {
+						return l, true
+					}
+				}
+			}
+		}
+		return nil, false
+	}
 	for _, el := range cl.Elts {
 		var chain []*ast.CallExpr
 		cur := ast.Expr(el)
@@ -308,6 +349,13 @@ func (p *Prog) ExtractFSM() *FSM {
 							}
 						}
 					}
+					if !got && call.Ellipsis.IsValid() {
+						// a package-level list spread: FromMany(pausableStates...)
+						if l, ok := listOf(a); ok {
+							pending = append(pending, l...)
+							got = true
+						}
+					}
 					if !got {
 						f.Problems = append(f.Problems, "FromMany argument not understood at "+p.Pos(a.Pos()))
 					}
@@ -342,7 +390,42 @@ func (p *Prog) ExtractFSM() *FSM {
 			case "Action":
 				lit, ok := call.Args[0].(*ast.FuncLit)
 				if !ok {
-					f.Problems = append(f.Problems, "Action of "+evName+" is not a function literal")
+					// a named function of the package used as the action
+					if id, isId := call.Args[0].(*ast.Ident); isId {
+						if fo, isFn := ch.TypesInfo.Uses[id].(*types.Func); isFn {
+							if fn := p.SSA.FuncValue(fo); fn != nil && len(fn.Blocks) > 0 {
+								f.Action[evName] = fn
+								continue
+							}
+						}
+					}
+					// a factory call: Action(markPaused(true)) where the factory returns one closure
+					if ce, isCall := call.Args[0].(*ast.CallExpr); isCall {
+						if id, isId := ce.Fun.(*ast.Ident); isId {
+							if fo, isFn := ch.TypesInfo.Uses[id].(*types.Func); isFn {
+								if fac := p.SSA.FuncValue(fo); fac != nil && len(fac.AnonFuncs) == 1 && len(fac.Blocks) == 1 {
+									bind := map[string]string{}
+									okArgs := len(ce.Args) == len(fac.Params)
+									for i, a := range ce.Args {
+										tv, has := ch.TypesInfo.Types[a]
+										if !has || tv.Value == nil {
+											okArgs = false
+											break
+										}
+										if okArgs {
+											bind[fac.Params[i].Name()] = tv.Value.ExactString()
+										}
+									}
+									if okArgs {
+										f.Action[evName] = fac.AnonFuncs[0]
+										f.ActionBind[evName] = bind
+										continue
+									}
+								}
+							}
+						}
+					}
+					f.Problems = append(f.Problems, "Action of "+evName+" is not a function literal, a named function or a factory called with constants")
 					continue
 				}
 				f.ActionLit[evName] = lit
@@ -470,4 +553,18 @@ func (p *Prog) FieldEffects(fn *ssa.Function, pi int) map[string]bool {
 	}
 	rec(fn, pi)
 	return out
+}
+
+// ActionD returns a descriptor context for the action of an event: free
+// variables of a factory-made closure read as the constants the factory was
+// called with.
+func (f *FSM) ActionD(p *Prog, ev string) *D {
+	d := p.D()
+	if b := f.ActionBind[ev]; len(b) > 0 {
+		d.FreeVal = func(fv *ssa.FreeVar) (string, bool) {
+			v, ok := b[fv.Name()]
+			return v, ok
+		}
+	}
+	return d
 }
